@@ -133,8 +133,18 @@ def gen_cases(c):
         comps += [p, b"ok" + p, p + b"ok", b"\xe2\x82\xac" + p]
     for _ in range(300 if c.tier == "quick" else 5000):
         comps.append(bytes(rng.randrange(256) for _ in range(rng.randrange(0, 12))))
-    U = comps
     I = [x for x in comps if len(x) <= 600]
+    # ASCII runs of every length 0..70 (a word-at-a-time fast path would have its edges here) in front of / behind every
+    # ill-formed piece, at 4 different offsets, and the well-formed twin
+    runs = []
+    for run in range(0, 71):
+        for off in range(4):
+            pre = b"\xe2\x82\xac"[:0] + b"\xc3\xa9" * (off // 2) + b"z" * (off % 2)
+            for p in BAD_PIECES[:: (1 if c.tier == "thorough" else 4)]:
+                runs.append(pre + b"a" * run + p + b"tail")
+                runs.append(pre + p + b"a" * run)
+            runs.append(pre + b"a" * run + b"\xf0\x9f\x98\x80" + b"a" * run)
+    U = comps + runs
     return D, U, I
 
 
